@@ -492,8 +492,8 @@ def cases(draw, max_params=12, big=False):
 
 def stages(ctx):
     return [
-        Stage('layout', run_case, cases(max_params=10), quick=500,
-              thorough=4000),
+        Stage('layout', run_case, cases(max_params=10), quick=2500,
+              thorough=8000),
         Stage('layout_wide', run_case, cases(max_params=40, big=True),
-              quick=60, thorough=500),
+              quick=300, thorough=1500),
     ]
